@@ -10,6 +10,9 @@ if [ "$ROUND" = "1" ]; then
 elif [ "$ROUND" = "3" ]; then
   ROOT=/tmp/seed3
   SPECS="C01-control-length-u16-add-overflow:C01 C02-reveal-chunk-granular-bound:C02 C03-resultcode-msg-fffd-rejected:C03 C04-data-length-patched-at-absolute-2:C04 C05-data-header-length-u16-wrap:C05 C06-length-member-12-drops-avps:C06 C07-writer-default-method-native-endian:C07 C08-control-guard-len-as-u16:C08 C09-backpatch-skipped-when-length-equals-end:C09 C10-encoder-refuses-exactly-65535:C10 C11-scratch-buffer-241-250-secret-panics:C11 C12-scratch-buffer-241-250-secret-truncates:C12 C13-resultcode-all-nul-message-panics:C13 C14-try-read-skips-optional-vendor-avps:C14 C15-greedy-stops-after-256-records:C15 C18-bytes-position-plus-length-overflow:C18 C19-secret-prefix-memo-keyed-by-address:C19 C20-q931-dangling-lead-octet-accepted:C20"
+elif [ "$ROUND" = "9" ]; then
+  ROOT=/tmp/seed9
+  SPECS="C01-accm-guard-after-reserved-skip:C01 C02-accm-guard-removed:C02 C03-q931-one-octet-advisory-dropped:C03 C04-zero-offset-field-omitted:C04 C05-reserved-mask-misses-bit-13:C05 C06-proxy-authen-type-pap-chap-swapped:C06 C07-avp-length-guard-after-u8-cast:C07 C08-hidden-avp-takes-rest-of-list:C08 C09-avp-positions-as-u16:C09 C10-number-avps-trim-trailing-nul:C10 C11-reveal-chunks-forward-order:C11 C12-align-pad-extra-block-3:C12 C13-call-errors-guard-forgets-reserved:C13 C14-reserved-mask-misses-bit-3-half-open-range:C14 C15-q931-bad-utf8-advisory-dropped:C15 C18-overwrite-zip-truncates-2:C18 C19-reveal-scratch-not-cleared:C19 C20-q931-unfinished-utf8-tail-accepted:C20"
 elif [ "$ROUND" = "8" ]; then
   ROOT=/tmp/seed8
   SPECS="C01-resultcode-error-guard-is-empty:C01 C02-resultcode-error-guard-is-empty-2:C02 C03-resultcode-bare-error-code-rejected:C03 C04-data-header-length-ignores-offset-pad:C04 C05-resultcode-bare-error-code-dropped:C05 C06-data-flags-priority-offset-swapped:C06 C07-control-length-from-writer-end:C07 C08-data-header-length-ignores-offset-pad-2:C08 C09-size-guard-on-absolute-end-position:C09 C10-bearer-type-encoder-masks-reserved-bits:C10 C11-reveal-merged-guard-total-length:C11 C12-align-pad-extra-block-2:C12 C13-reveal-upper-bound-two-octets-generous:C13 C14-reserved-mask-misses-bit-3:C14 C15-hidden-vendor-accepted-3:C15 C18-overwrite-zip-truncates:C18 C19-digest-scratch-not-cleared-on-reveal-error:C19 C20-hidden-vendor-not-named-2:C20"
